@@ -87,7 +87,7 @@ AlphaOps2 == AlphaOf([Query |-> {"f", "s"}])
 ArgOptsOps2 == [ f |-> {<<ArgV("a", Lit("var", "n"))>>}, g |-> {<<ArgV("r", Lit("int", 2))>>} ]
 AlphaSchedP == AlphaOf([Query |-> {"lp"}, P |-> {"o"}, A |-> {"o"}, T |-> {"s", "d"}])
 AlphaCs == AlphaOf([Query |-> {"cs", "csn", "lcs", "o", "on"}, T |-> {"csn", "s"}])
-AlphaCsM == AlphaOf([Mutation |-> {"mcs", "mln", "m3"}, T |-> {"csn", "s"}])
+AlphaCsM == AlphaOf([Mutation |-> {"mcs", "mln", "m1"}, T |-> {"csn", "sn"}])
 \* input object literals holding a variable that may have a value, be null, or have no value at all
 AlphaObjLit == AlphaOf([Query |-> {"h", "s"}])
 ArgOptsObjLit == [ f |-> {<<>>}, g |-> {<<>>},
